@@ -96,3 +96,9 @@ def rule_space(filters_named, filters_sub, max_batch=1, with_any=True):
         for d in DIRS:
             for s in all_sides:
                 yield mk_rule("should_not", d, False, s, [], any_=True)
+
+
+def real_filter(f, render=dotted):
+    from pytestarch.eval_structure.evaluable_architecture import ModuleNameFilter, ParentModuleNameFilter
+
+    return ModuleNameFilter(name=render(f["name"])) if f["kind"] == "named" else ParentModuleNameFilter(parent_module=render(f["name"]))
